@@ -35,6 +35,19 @@ namespace mustache {
 
         struct CloneInfo {
             ComponentInfo::CloneFunction clone;
+            ComponentInfo::CopyFunction copy;
+            size_t size;
+            // a run-time described component may have no clone function: copy it, bytewise if it has no copy function either
+            MUSTACHE_INLINE void cloneComponent(void* dest, const Entity& dest_entity, const void* source,
+                                                const Entity& source_entity, World& world, CloneEntityMap& map) const {
+                if (clone) {
+                    clone(dest, dest_entity, source, source_entity, world, map);
+                } else if (copy) {
+                    copy(dest, source);
+                } else {
+                    memcpy(dest, source, size);
+                }
+            }
         };
 
         struct AfterCloneInfo {
